@@ -359,6 +359,8 @@ def part_c(res, rng, tier, seed, d):
 
 
 def run(res, tier, seed):
+    import l1b as _l1b
+    _l1b.AUTO_NOISE = 7919 * seed + 13      # random bytes in every record field the spec writer does not set
     rng = common.rng_for(seed, PROP)
     part_a(res, rng, tier, seed)
     with common.scratch_dir() as d:
